@@ -178,16 +178,26 @@ double interpolateLogEffort(double minVal, double maxVal, int effort,
   return std::exp(interpolateEffort(std::log(minVal), std::log(maxVal), effort,
                                     minEffort, maxEffort));
 }
-}  // namespace
 
-ColoquinteParameters::ColoquinteParameters(int effort, int seed)
-    : global(effort), legalization(effort), detailed(effort), seed(seed) {
+/**
+ * @brief Validate the effort before it is used to index per-effort tables
+ */
+int checkedEffort(int effort) {
   if (effort < 1 || effort > 9) {
     throw std::runtime_error("Placement effort must be between 1 and 9");
   }
+  return effort;
 }
+}  // namespace
+
+ColoquinteParameters::ColoquinteParameters(int effort, int seed)
+    : global(checkedEffort(effort)),
+      legalization(effort),
+      detailed(effort),
+      seed(seed) {}
 
 RoughLegalizationParameters::RoughLegalizationParameters(int effort) {
+  checkedEffort(effort);
   costModel = LegalizationModel::L1;
   nbSteps = 1;
   // TODO: find best parameter
@@ -209,6 +219,7 @@ RoughLegalizationParameters::RoughLegalizationParameters(int effort) {
 }
 
 PenaltyParameters::PenaltyParameters(int effort) {
+  checkedEffort(effort);
   // TODO: make cutoff distance smaller at small effort
   cutoffDistance = 40.0;
   cutoffDistanceUpdateFactor = 1.0;
@@ -232,7 +243,9 @@ ContinuousModelParameters::ContinuousModelParameters(
 }
 
 GlobalPlacerParameters::GlobalPlacerParameters(int effort)
-    : continuousModel(effort), roughLegalization(effort), penalty(effort) {
+    : continuousModel(checkedEffort(effort)),
+      roughLegalization(effort),
+      penalty(effort) {
   maxNbSteps = 400;
   nbInitialSteps = 0;
   nbStepsBeforeRoughLegalization = 1;
@@ -268,6 +281,7 @@ std::string GlobalPlacerParameters::toString() const {
 }
 
 DetailedPlacerParameters::DetailedPlacerParameters(int effort) {
+  checkedEffort(effort);
   nbPasses = std::round(interpolateLogEffort(2.0, 8.0, effort));
   localSearchNbNeighbours = std::round(interpolateLogEffort(2.0, 16.0, effort));
   localSearchNbRows = std::round(interpolateEffort(1.0, 4.0, effort));
